@@ -1283,6 +1283,9 @@ func (r *Runner) checkScenarioOn(i int, s *Step, t *Transcript, name string) {
 		prop = "C02"
 	}
 	r.Stats.Probes["scenario_steps"]++
+	if s.SameEngineOnly {
+		return // no expectation: judged by agreement within each engine
+	}
 	if s.Fails != "" {
 		if t.Class == "ok" {
 			r.violate(prop, "scenario.outcome", i, name, "scn-unexpected-success", "%s must fail with %s but succeeded (result %s)", s.Name, s.Fails, t.Result)
